@@ -19,7 +19,7 @@ git apply $S/patch.diff || { echo "patch does not apply"; res $id 1 1 0 1 "$dir"
 go build ./... ; b=$?
 go test -vet=off -count=1 -timeout 25m ./... 2>&1 | tail -25; s=${PIPESTATUS[0]}
 cp $S/demo_test.go $dir/zz_seeded_demo_test.go
-extra=""; grep -q -- "-race" $S/demo_test.go && head -3 $S/demo_test.go | grep -q -- "-race" && extra="-race"
+extra=""; grep -q -- "-race" $S/demo_test.go && head -6 $S/demo_test.go | grep -q -- "-race" && extra="-race"
 if [ -n "$extra" ]; then GOTOOLCHAIN=local go1.26 test -race -vet=off -count=1 -timeout 10m -run "^($tests)\$" ./$dir/ 2>&1 | tail -15; dw=${PIPESTATUS[0]};
 else go test -vet=off -count=1 -timeout 10m -run "^($tests)\$" ./$dir/ 2>&1 | tail -15; dw=${PIPESTATUS[0]}; fi
 git apply -R $S/patch.diff
